@@ -46,7 +46,7 @@ def group_op(kind, variant):
     return T("fetch_group_offsets", [G, [T("fgo", [T1, 0]), T("fgo", [T1, 1])]])
 
 
-def make_case(rng, kind, seq, limit, moved=False, endless=None, place=None, sequel=False):
+def make_case(rng, kind, seq, limit, moved=False, endless=None, place=None, sequel=False, unlisted=False):
     nb, coord = place if place else (0, 0)
     nb = nb or rng.choice([2, 3])
     coord = coord or rng.randint(1, nb)
@@ -56,6 +56,16 @@ def make_case(rng, kind, seq, limit, moved=False, endless=None, place=None, sequ
     spec = {"brokers": brokers(nb), "topics": {T1: [rng.randint(1, nb), rng.randint(1, nb)]}, "logs": {},
             "coordinator": {G: coord}, "committed": {G: {(T1, 0): 3, (T1, 1): 4}}}
     ops = boot_ops(spec) + [T("set_group_offset_storage", [storage]), T("set_retry_max_attempts", [limit])]
+    if unlisted:
+        # the coordinator is a live broker that the client's metadata does not list (it was down, or joined later, when the metadata
+        # was loaded): the lookup's answer is then the only source of its address
+        hidden = coord
+        spec["topics"] = {T1: [rng.choice([n for n in range(1, nb + 1) if n != hidden]) for _ in range(2)]}
+        body = {"brokers": [{"node_id": n, "host": h, "port": p} for n, (h, p) in sorted(spec["brokers"].items()) if n != hidden],
+                "topics": [{"error": 0, "topic": T1, "partitions": [{"error": 0, "id": i, "leader": l, "replicas": [], "isr": []}
+                                                                     for i, l in enumerate(spec["topics"][T1])]}]}
+        ops[0] = T("client_new", [[h + b":" + str(p).encode() for n, (h, p) in sorted(spec["brokers"].items()) if n != hidden]])
+        ops[1] = {"op": ops[1], "mutate": {"kind": "body", "api": "metadata", "body": body}}
     variant = rng.randint(0, 1)
     first = len(ops)
     if moved:
@@ -85,7 +95,7 @@ def make_case(rng, kind, seq, limit, moved=False, endless=None, place=None, sequ
         ops.append(group_op(rng.choice(["commit", "fetch"]), rng.randint(0, 1)))
     return {"cluster": spec, "ops": ops,
             "meta": {"kind": kind, "seq": list(seq)[:8], "limit": limit, "moved": bool(moved), "endless": endless is not None,
-                     "first": first, "storage": storage, "coord": coord, "under": under, "sequel": len(ops) - 1 > under}}
+                     "first": first, "storage": storage, "coord": coord, "under": under, "sequel": len(ops) - 1 > under, "unlisted": unlisted}}
 
 
 def pick_limits(rng, tier, seq):
@@ -117,6 +127,11 @@ def gen(rng, tier):
         for code in RETRY:
             for limit in range(6):
                 cases.append(make_case(rng, kind, [], limit, endless=code))
+    # the coordinator is a broker the loaded metadata does not list
+    for kind in OPS:
+        for seq in sequences(2 if tier == "quick" else 3):
+            for limit in pick_limits(rng, tier, seq):
+                cases.append(make_case(rng, kind, seq, limit, place=(3, rng.randint(1, 3)), sequel=rng.random() < 0.5, unlisted=True))
     return cases
 
 
@@ -292,6 +307,8 @@ def stats(case, recs):
          "brokers:%d" % len(case["cluster"]["brokers"]): 1}
     if m["moved"]:
         s["moved"] = 1
+    if m.get("unlisted"):
+        s["coordinator_not_in_metadata"] = 1
     if m["endless"]:
         s["endless"] = 1
     else:
